@@ -120,5 +120,48 @@ def spec_text_colon(ex, e, p):
     return VBool(z3.Select(Text.colon(t), i))
 
 
+# ---- lines of a listing: a string built from literal pieces and at most three str(int) (template with holes).  The template id is a stable
+#      hash of the literal skeleton, so equal templates are equal ids in every run; '' is template 0.  Two strings of this shape are equal
+#      iff template and integers are equal (T5).
+import hashlib
+
+
+def tpl_id(template):
+    return 0 if template == '' else 1 + int(hashlib.sha1(template.encode()).hexdigest()[:7], 16)
+
+
+class StrLineShape:
+    def encode(self, ex, v):
+        if len(v.atoms) == 1 and isinstance(v.atoms[0], tuple) and v.atoms[0][0] == 'shaped': return v.atoms[0][2]
+        parts = []; ints = []
+        for a in v.atoms:
+            if isinstance(a, str):
+                if '{}' in a: raise Undecided('literal braces in a listing line')
+                parts.append(a)
+            elif isinstance(a, tuple) and a[0] == 'int': parts.append('{}'); ints.append(a[1])
+            else: raise Undecided('piece %r of a listing line is outside the line-template model' % (a,))
+        if len(ints) > 3: raise Undecided('more than three numbers in one listing line')
+        ints += [z3.IntVal(0)] * (3 - len(ints))
+        return StrLine.mk(z3.IntVal(tpl_id(''.join(parts))), *ints)
+
+    def decode(self, ex, t):
+        return VStr([('shaped', 'strline', t)])
+
+
+def _shaped_term(ex, v):
+    if isinstance(v, VStr) and len(v.atoms) == 1 and isinstance(v.atoms[0], tuple) and v.atoms[0][0] == 'shaped': return v.atoms[0][2]
+    if isinstance(v, VStr): return StrLineShape().encode(ex, v)
+    raise StaleContract('line_* applied to %r' % (v,))
+
+
+def spec_line_tpl(ex, e, p): return VInt(StrLine.tpl(_shaped_term(ex, ex.ev(e.args[0], p))))
+def spec_line_arg(ex, e, p):
+    t = _shaped_term(ex, ex.ev(e.args[0], p)); k = e.args[1].value
+    return VInt([StrLine.a0, StrLine.a1, StrLine.a2][k](t))
+def spec_tpl(ex, e, p): return VInt(tpl_id(e.args[0].value))
+
+
 def install(ex):
+    ex.shapes['strline'] = StrLineShape()
+    ex.spec_ext['line_tpl'] = spec_line_tpl; ex.spec_ext['line_arg'] = spec_line_arg; ex.spec_ext['tpl'] = spec_tpl
     ex.spec_ext['text_len'] = spec_text_len; ex.spec_ext['text_toks'] = spec_text_toks; ex.spec_ext['text_colon'] = spec_text_colon
